@@ -3,6 +3,12 @@
 properties must NOT report a violation on them (exit 0; exit 2 = undecided is reported separately)."""
 import json, os, subprocess, sys, tempfile, shutil, concurrent.futures
 ROOT = os.path.dirname(os.path.dirname(os.path.abspath(__file__)))
+import atexit as _ae, shutil as _sh, tempfile as _tf
+# private copy of the verifier, so that a rebuild of bin/govc during a long run cannot mix engines
+GOVC = os.environ.get("GOVC_BIN")
+if not GOVC:
+    _d = _tf.mkdtemp(prefix="govc-bin-"); GOVC = os.path.join(_d, "govc")
+    _sh.copy2(os.path.join(ROOT, "bin", "govc"), GOVC); _ae.register(lambda: _sh.rmtree(_d, ignore_errors=True))
 M = json.load(open(os.path.join(ROOT, 'selftest', 'equivalents.json')))
 only = set(sys.argv[1:])
 def run(m):
@@ -15,7 +21,7 @@ def run(m):
         shutil.copy(os.path.join(ROOT, "known_findings.json"), out)
         res = []
         for prop in m["properties"]:
-            r = subprocess.run([os.path.join(ROOT, "bin/govc"), "check", "-repo", wt, "-out", out, "-property", prop], capture_output=True, text=True)
+            r = subprocess.run([GOVC, "check", "-repo", wt, "-out", out, "-property", prop], capture_output=True, text=True)
             viol = [l for l in r.stdout.splitlines() if l.startswith("VIOLATION")]
             if r.returncode == 0: v = "ok"
             elif r.returncode == 2: v = "UNDECIDED " + (r.stdout.strip().splitlines() or [""])[-1][:200]
